@@ -467,8 +467,8 @@ def correspond(ctx, xh, xm, xd, codes, jobs, thorough, proof_broken, failed, out
             judge(ctx, cases, cfgs, for_c03)
             return
     replay_witnesses(ctx, xh)
-    n_valid = 500 if not thorough else 12000
-    n_mut = 1000 if not thorough else 30000
+    n_valid = 350 if not thorough else 12000
+    n_mut = 800 if not thorough else 30000
     if for_c03 and not thorough:
         n_valid, n_mut = 300, 500      # C03 adds its own streams; keeps its quick tier well below 3 minutes
     cases = gen_cases(ctx, xm, n_valid, n_mut, jobs)
@@ -477,6 +477,7 @@ def correspond(ctx, xh, xm, xd, codes, jobs, thorough, proof_broken, failed, out
     judge(ctx, cases, cfgs, for_c03)
     nreq += doctype_stream(ctx, xh, jobs, 150 if not thorough else 5000)
     nreq += name_stream(ctx, xh, xd, jobs)
+    nreq += ns_stream(ctx, xh, jobs)
     nreq += decl11_stream(ctx, xh, jobs)
     nreq += entity_split_stream(ctx, xh, xm, jobs)
     ctx.coverage["traces_validated_against_impl"] = nreq
@@ -750,6 +751,122 @@ def name_stream(ctx, xh, xd, jobs):
     return len(lines)
 
 
+def ns_stream(ctx, xh, jobs):
+    """namespace well-formedness (Namespaces in XML 1.0: Prefix Declared, reserved prefixes and namespace names, no
+    prefix undeclaring, QName syntax, Attributes Unique on expanded names): one violated constraint per document,
+    prefixes / quotes / nesting / one character of the URI written as a character reference chosen at random.  Verdict:
+    fatal with namespaces on for every scanner (defaulted-from-the-DTD forms: IG and DG, the scanners that read the
+    DOCTYPE), accepted with namespaces off by WF / IG / DG (SGXMLScanner resolves prefixes whatever the setting); the
+    well-formed counterparts are accepted everywhere.  No Coq model: prefix resolution is property C06's model; this
+    stream holds the implementation to the verdict prescribed by the Namespaces recommendation."""
+    rng = ctx.rng
+    XML = "http://www.w3.org/XML/1998/namespace"
+    XMLNS = "http://www.w3.org/2000/xmlns/"
+
+    def uri(u):
+        """the URI literally or with one character spelled as a (decimal / hexadecimal) character reference"""
+        k = rng.randrange(3)
+        if k == 0:
+            return u
+        i = rng.randrange(len(u))
+        return u[:i] + (("&#%d;" % ord(u[i])) if k == 1 else ("&#x%X;" % ord(u[i]))) + u[i + 1:]
+
+    def pfx():
+        return rng.choice(["p", "q1", "ns_a", "x-y", "a.b"])
+
+    def q(v):
+        c = rng.choice("'\"")
+        return c + v + c
+
+    def wrap(e):
+        """put the element at a random depth"""
+        k = rng.randrange(3)
+        return e if k == 0 else ("<r>%s</r>" % e if k == 1 else "<r xmlns:z='zz'><z:s>t</z:s>%s</r>" % e)
+    P, Q = pfx(), "q9"
+    bad = [
+        ("unbound-elem", lambda: wrap("<%s:a/>" % P), "all"),
+        ("unbound-attr", lambda: wrap("<a %s:b=%s/>" % (P, q("1"))), "all"),
+        ("unbound-inner", lambda: "<a xmlns:%s='u'><%s:b/></a>" % (P, Q), "all"),
+        ("xmlns-prefix-declared", lambda: wrap("<a xmlns:xmlns=%s/>" % q(uri(rng.choice(["u", XMLNS])))), "all"),
+        ("xmlns-uri-bound", lambda: wrap("<a xmlns:%s=%s/>" % (P, q(uri(XMLNS)))), "all"),
+        ("xml-prefix-other-uri", lambda: wrap("<a xmlns:xml=%s/>" % q(uri("urn:u"))), "all"),
+        ("xml-uri-other-prefix", lambda: wrap("<a xmlns:%s=%s/>" % (P, q(uri(XML)))), "all"),
+        ("default-xml-uri", lambda: wrap("<a xmlns=%s/>" % q(uri(XML))), "all"),
+        ("default-xmlns-uri", lambda: wrap("<a xmlns=%s/>" % q(uri(XMLNS))), "all"),
+        ("default-xml-uri-inner", lambda: "<a xmlns='u'><b c='1' xmlns=%s>t</b></a>" % q(uri(XML)), "all"),
+        ("default-xmlns-uri-inner", lambda: "<a xmlns='u'><b xmlns=%s c='1'/></a>" % q(uri(XMLNS)), "all"),
+        ("prefix-undeclared", lambda: wrap("<a xmlns:%s=%s/>" % (P, q(""))), "all"),
+        ("prefix-undeclared-inner", lambda: "<a xmlns:%s='u'><b xmlns:%s=''><%s:c/></b></a>" % (P, P, P), "all"),
+        ("dup-expanded-attr", lambda: wrap("<a xmlns:%s='u' xmlns:%s='u' %s:b='1' %s:b='2'/>" % (P, Q, P, Q)), "all"),
+        ("dup-expanded-attr-inherited", lambda: "<r xmlns:%s='u'><a xmlns:%s=%s %s:b='1' %s:b='2'/></r>" % (P, Q, q(uri("u")), P, Q), "all"),
+        ("two-colons-attr", lambda: wrap("<a xmlns:%s='u' %s:b:c='1'/>" % (P, P)), "all"),
+        ("empty-local-attr", lambda: wrap("<a xmlns:%s='u' %s:='1'/>" % (P, P)), "all"),
+        ("default-xml-uri-dtd", lambda: "<!DOCTYPE a [<!ATTLIST a xmlns CDATA %s>]><a/>" % q(uri(XML)), "dtd"),
+        ("default-xmlns-uri-dtd", lambda: "<!DOCTYPE a [<!ATTLIST a xmlns CDATA %s>]><a/>" % q(uri(XMLNS)), "dtd"),
+        ("xmlns-uri-bound-dtd", lambda: "<!DOCTYPE a [<!ATTLIST a xmlns:%s CDATA %s>]><a/>" % (P, q(uri(XMLNS))), "dtd"),
+        ("unbound-attr-dtd", lambda: "<!DOCTYPE a [<!ATTLIST a %s:b CDATA 'v'>]><a/>" % P, "dtd"),
+    ]
+    good = [
+        ("bound-elem", lambda: wrap("<%s:a xmlns:%s=%s/>" % (P, P, q(uri("urn:u")))), "all"),
+        ("xml-prefix-own-uri", lambda: wrap("<a xmlns:xml=%s xml:lang='en'/>" % q(uri(XML))), "all"),
+        ("xml-prefix-implicit", lambda: wrap("<a xml:space='preserve'/>"), "all"),
+        ("default-empty", lambda: wrap("<a xmlns=''/>"), "all"),
+        ("default-undeclared-inner", lambda: "<a xmlns='u'><b xmlns=''/></a>", "all"),
+        ("default-near-reserved", lambda: wrap("<a xmlns=%s/>" % q(uri(rng.choice([XML + "s", XMLNS[:-1], XML.upper()])))), "all"),
+        ("same-local-different-uri", lambda: wrap("<a xmlns:%s='u' xmlns:%s='v' %s:b='1' %s:b='2'/>" % (P, Q, P, Q)), "all"),
+        ("unprefixed-and-prefixed", lambda: wrap("<a xmlns:%s='u' b='1' %s:b='2'/>" % (P, P)), "all"),
+        ("default-dtd", lambda: "<!DOCTYPE a [<!ATTLIST a xmlns CDATA %s>]><a/>" % q(uri("urn:d")), "dtd"),
+    ]
+    reps = 1 if ctx.tier == "quick" else 12
+    cases = []
+    for r in range(reps):
+        P = pfx()
+        for (n, f, scope) in bad:
+            cases.append(("ns-mutant/" + n, f(), scope, True))
+        for (n, f, scope) in good:
+            cases.append(("ns-valid/" + n, f(), scope, False))
+    lines, meta = [], []
+    for k, (kind, doc, scope, mustfail) in enumerate(cases):
+        for sc in SCANNERS:
+            for ns in (0, 1):
+                for a in (APIS if (k + ns) % 2 == 0 or ctx.tier != "quick" else APIS[:1] + APIS[-1:]):
+                    lines.append("parse %s %s %d %s" % (a, sc, ns, bhex(doc.encode("utf-8"))))
+                    meta.append((k, a, sc, ns))
+    out = run_lines(xh, lines, jobs)
+    dist = ctx.coverage.setdefault("input_distribution", {})
+    nbad = 0
+    for (k, a, sc, ns), req, o in zip(meta, lines, out):
+        ctx.count()
+        kind, doc, scope, mustfail = cases[k]
+        dist[kind] = dist.get(kind, 0) + 1
+        ctx.distinct(("ns", doc, sc, ns))
+        ev, errs, fh = parse_impl(o)
+        fatal = fatal_count(errs) > 0
+        reads_dtd = sc in ("IG", "DG")
+        if mustfail and ns == 1 and (scope == "all" or reads_dtd):
+            want = True
+        elif mustfail and (sc == "SG" or (scope == "dtd" and not reads_dtd)):
+            continue       # SG resolves prefixes whatever the setting; WF/SG skip the DOCTYPE: no verdict prescribed
+        else:
+            want = False
+        if want and (not fatal or fh == 0):
+            nbad += 1
+            if nbad <= 4:
+                ctx.violation("ns-mutant", {
+                    "what": "%s/%s namespaces=%d accepts a document that violates a namespace constraint (%s)"
+                            % (a, sc, ns, kind), "request": req, "impl": [ev, errs, fh], "expect": {"fatal": True},
+                    "document": doc})
+        elif not want and (fatal or errs):
+            nbad += 1
+            if nbad <= 4:
+                ctx.violation("ns-valid", {
+                    "what": "%s/%s namespaces=%d rejects a document that is namespace-well-formed for this setting (%s)"
+                            % (a, sc, ns, kind), "request": req, "impl": [ev, errs, fh],
+                    "expect": {"fatal": False, "events": None}, "document": doc})
+    ctx.coverage["ns_stream"] = {"documents": len(cases), "parser_runs": len(lines)}
+    return len(lines)
+
+
 def doctype_stream(ctx, xh, jobs, ndocs):
     """documents with an internal DTD subset (gen/C02_dtd.py): the verdict prescribed by XML 1.0 section 4.1 (WFC Entity
     Declared applies iff no PE reference in the internal subset or standalone='yes'), the events obtained by expanding
@@ -855,6 +972,7 @@ WITNESS_RULE = {   # finding -> predicate on (request, errors, fh) of a witness 
     "F41": lambda req, errs, fh: fatal_count(errs) == 0,
     "F42": lambda req, errs, fh: fatal_count(errs) == 0,
     "F45": lambda req, errs, fh: fatal_count(errs) == 0,
+    "F63": lambda req, errs, fh: fatal_count(errs) == 0,
     "F46": lambda req, errs, fh: fatal_count(errs) == 0 and not req.endswith(" l"),
     "F40": lambda req, errs, fh: "EXC:DOMException:5" in errs,
     # first witness: DOM builders throw for version 1.5; second: a version string that is no VersionNum is accepted
@@ -985,12 +1103,12 @@ def judge(ctx, cases, cfgs, for_c03):
 
 
 KNOWN_TAGS = {
-    "nul-epilog": ("F41", "a NUL character (U+0000) after the root element is taken for the end of input: the rest of "
-                          "the document is ignored and no error is reported (XMLScanner::scanMiscellaneous)"),
-    "sur-attr-end": ("F42", "an unpaired high surrogate directly before the closing quote of an attribute value is not "
-                            "diagnosed (scanAttValue tests the quote before the pending-surrogate flag)"),
-    "sur-pi-end": ("F42", "an unpaired high surrogate directly before the closing `?>` of a processing instruction is "
-                          "not diagnosed (scanPI tests the terminator before the pending-surrogate flag)"),
+    # (nul-epilog = F41 and sur-attr-end / sur-pi-end = F42 are repaired in /repo and the model follows the repaired
+    #  code: these classes are held to the verdict AND to the model's first fatal code like every other mutant)
+    "sur-before-ref": ("F63", "an unpaired high surrogate directly before a character / predefined-entity reference in "
+                              "character data or an attribute value is not diagnosed (scanCharData / scanAttValue leave the "
+                              "pending-surrogate flag untouched across a reference): UTF-16 `<a>` D800 `&amp;` DC00 `</a>` "
+                              "is accepted"),
     "trunc-tail": ("F2", "a well-formed document followed by a truncated multi-byte sequence (UTF-8) / an odd trailing "
                          "byte (UTF-16) is accepted silently"),
 }
@@ -998,10 +1116,11 @@ KNOWN_TAGS = {
 
 def attribute_known(ctx, c, a, s, ns, moc):
     """a malformed case accepted by the implementation is attributed to a listed finding only through the precise
-    class tag the generator attached to it"""
+    class tag the generator attached to it (and only while the finding is listed as `known`, not `fixed`)"""
     if c.tag in KNOWN_TAGS:
         fid, text = KNOWN_TAGS[c.tag]
-        if ctx.find_known(fid):
+        f = ctx.find_known(fid)
+        if f and f.get("status", "known") == "known":
             ctx.known_finding(fid, text)
             return True
     return False
